@@ -207,8 +207,15 @@ def gen_fwd(seed):
         edges = edges + [rng.choice(edges)]
         rng.shuffle(edges)
     entry = rng.choice(names)
-    return fwd_graph_scn(names, edges, entry, slow=rng.random() < 0.5, await_first=rng.random() < 0.7,
-                         second=rng.choice(names) if rng.random() < 0.4 else None, nested=rng.random() < 0.3, mid_await=rng.random() < 0.4)
+    s = fwd_graph_scn(names, edges, entry, slow=rng.random() < 0.5, await_first=rng.random() < 0.7,
+                      second=rng.choice(names) if rng.random() < 0.4 else None, nested=rng.random() < 0.3, mid_await=rng.random() < 0.4)
+    if rng.random() < 0.35:
+        # some forwards are registered for the event's own type instead of '*' (type-specific routing next to catch-all forwards)
+        for h in s['handlers']:
+            if h['kind'] == 'fwd' and rng.random() < 0.4:
+                h['pat'] = 'E'
+                h['id'] += '_E'
+    return s
 
 
 # ---------------------------------------------------------------------------------------------
@@ -891,6 +898,32 @@ def gen_fwd_timeout(seed):
     return s
 
 
+def sys_idle_in_handler():
+    """C02 / C06: a handler calls wait_until_idle() (with a timeout) on its own bus or on another bus while events are queued behind it: it
+    is not awaiting an event, so nothing else may start on a serial bus until it is done"""
+    out = []
+    for tgt, nq, tmo, par, after in itertools.product(['b1', 'b2'], [1, 3], [120, 300], [False, True], [[], [['s', 2]]]):
+        scripts = {'S1': {'R': [['idle', tgt, tmo]] + after, 'L': [['s', 1]]}, 'S2': {'M': [['s', 1]], 'L': []}}
+        handlers = [wild('b1', 'S1', hid='h1'), wild('b2', 'S2', hid='h2')]
+        d = [['d', 'b1', 'R']] + [['d', 'b1', 'L']] * nq + [['d', 'b2', 'M']] * nq + [['s', 600], ['idle', 'b1', 2000], ['idle', 'b2', 2000]]
+        out.append(scn([bus('b1', parallel=par), bus('b2')], handlers, scripts, [d], horizon=8000, tag='idle_in_handler'))
+    return out
+
+
+def sys_retry_handler():
+    """C10 with @retry-decorated handlers (per-attempt timeout longer than the event timeout): the bus's cancellation must reach the handler
+    body through the decorator - the body stops, the awaited child's pending handlers are cancelled"""
+    out = []
+    for tmo, rt, awaited, csleep, par in itertools.product([3, 6], [40, 200], [True, False], [0, 10], [False, True]):
+        r_ops = ([['d', 'b1', 'C'], ['a', 0]] if awaited else []) + [['s', 20], ['y', 1]]
+        scripts = {'SR': {'R': r_ops}, 'SC': {'C': [['s', csleep]] if csleep else [], 'L': []}, 'SC2': {'C': [['s', 1]]}}
+        handlers = [dict(typed('b1', 'R', 'SR', hid='hr'), retry={'timeout': rt}), typed('b1', 'C', 'SC', hid='hc'), typed('b1', 'C', 'SC2', hid='hc2'),
+                    typed('b1', 'L', 'SC', hid='hl')]
+        d = [['d', 'b1', 'R'], ['d', 'b1', 'L'], ['a', 0], ['s', 300], ['idle', 'b1', 2000]]
+        out.append(scn([bus('b1', parallel=par)], handlers, scripts, [d], events={'R': {'timeout': tmo}}, horizon=8000, tag='retry_handler'))
+    return out
+
+
 def gen_wal(seed):
     rng = random.Random(seed)
     nb = rng.choice([1, 2, 2, 3])
@@ -1062,6 +1095,8 @@ def gen_timeout_par(seed):
 
 
 FAMILIES = {
+    'retry_handler': ('sys', sys_retry_handler),
+    'idle_in_handler': ('sys', sys_idle_in_handler),
     'fwd_timeout': ('rand', gen_fwd_timeout),
     'par_held': ('sys', sys_par_held),
     'capacity_fwd': ('sys', sys_capacity_fwd),
